@@ -132,6 +132,16 @@ def step (s : St) (op : String) : St × Option String :=
   | ["term"] => (s, some (showTerm s.sys.store.term))
   | ["splits"] => (s, some (showSplits s.sys.store s.splits))
   | ["bundles"] => (s, some (showBundles s.sys.store.bundles))
+  | "pagecommit" :: rest =>
+    -- judge (C12_commit_content, whatever the listing page size): the committed bundle holds the
+    -- files of every completed split and of no other
+    let got := (kvGet (kvs rest) "got").getD ""
+    (s, some (if got == "all" then "sound" else "UNSOUND"))
+  | "termfault" :: rest =>
+    -- judge (C12_refused_after_terminal, under one transient read fault): a terminated diamond
+    -- accepts no split and yields no further bundle
+    let got := (kvGet (kvs rest) "got").getD ""
+    (s, some (if got == "refused" then "sound" else "UNSOUND"))
   | "amo" :: _ =>
     -- what the property demands: at most one bundle, whatever the schedule
     let tag :=
